@@ -9,6 +9,7 @@ import (
 	"fmt"
 	"math"
 	"math/big"
+	"os"
 	"sort"
 	"time"
 
@@ -21,6 +22,18 @@ import (
 )
 
 const inTreeBudget = uint64(100000000) // chain/app/evm.EVMGasLimit
+
+// chain configuration chain/app/evm.NewEVMApp installs (unexported field there): keep in step with it
+var inTreeChainConfig = iparams.MainnetChainConfig
+
+func init() {
+	// developer aid (never set by the registered command): what if the application installed a
+	// configuration with every fork at block 0 instead of MainnetChainConfig?
+	if os.Getenv("C10_INTREE_CONFIG") == "allforks" {
+		z := big.NewInt(0)
+		inTreeChainConfig = &iparams.ChainConfig{ChainID: big.NewInt(1), HomesteadBlock: z, EIP150Block: z, EIP155Block: z, EIP158Block: z, ByzantiumBlock: z, ConstantinopleBlock: z}
+	}
+}
 
 type itracer struct{ r *rec }
 
@@ -98,7 +111,7 @@ func runInTree1(b *built, diag bool, witness bool) *outcome {
 		Time:        big.NewInt(1600000000),
 		Difficulty:  big.NewInt(131072),
 	}
-	evm := ivm.NewEVM(ctx, st, iparams.MainnetChainConfig, ivm.Config{EVMGasLimit: inTreeBudget, Debug: true, Tracer: &itracer{r}})
+	evm := ivm.NewEVM(ctx, st, inTreeChainConfig, ivm.Config{EVMGasLimit: inTreeBudget, Debug: true, Tracer: &itracer{r}})
 	sender := ivm.AccountRef(icommon.Address(senderAddr))
 	var (
 		ret     []byte
